@@ -37,6 +37,9 @@ def run(rep):
                     "distinct_nontrivial counts conservatively (accepted inputs plus half of the rejected ones)",
             "samples": res["samples"], "input_distribution": res["dist"], "status_counts": res["counts"], "max_tokens": res["max_tokens"], "trusted_base": TRUSTED,
         })
+    b2, summ = searchcommon.run_selectcore(rep, 1500 if rep.tier == "quick" else 40000)
+    broken += b2
+    rep.coverage["selectcore_correspondence"] = summ
     verif.report_broken(rep, broken, found)
     rep.assumptions = ["inputs up to 1 MiB (harness bound; the theorems carry no size bound)"]
 
